@@ -308,13 +308,47 @@ pub fn check_raw(case: &RawCase) -> Outcome {
                     b[fe - 1] = c as u8;
                 }
             }
-            let strict = !case.fix_crc && touched.len() == 1 && b != base.bytes;
+            // the same-audio oracle is the property's: alterations confined to ONE run of at most 8 bits
+            // inside one frame (CRC-16 guarantees the detection of such bursts; two edits further apart can
+            // collide, and then the result is simply another valid stream)
+            let altered: Vec<usize> = (0..b.len() * 8).filter(|i| (b[i / 8] ^ base.bytes[i / 8]) & (0x80 >> (i % 8)) != 0).collect();
+            let span = altered.last().map_or(0, |l| l - altered[0] + 1);
+            let strict = !case.fix_crc && touched.len() == 1 && !altered.is_empty() && span <= 8;
+            if !case.fix_crc && !altered.is_empty() {
+                out.class(if span <= 8 { "edits:one-run<=8-bits(same-audio oracle applies)" } else { "edits:wider-than-8-bits(panic oracle only)" });
+            }
             judge(&mut out, &base, &b, &format!("byte edits {:?} of small stream {s} (crc fixed: {})", case.edits, case.fix_crc), strict);
             out.class(if case.fix_crc { "edits:crc-fixed" } else { "edits:raw" });
             out.nontrivial = !case.edits.is_empty();
         }
     }
     out
+}
+
+/// Diagnostic for a `RawCase` replay file: which bytes differ and what the two independent readers say.
+pub fn analyze_raw(path: &str) -> Result<(), String> {
+    let (_k, case) = crate::core::replay_kind(path)?;
+    let case: RawCase = serde_json::from_value(case).map_err(|e| e.to_string())?;
+    let Some(s) = case.base else { return Err("raw bytes case".into()) };
+    let sc = small_stream(s % 24);
+    let base = base_of(&sc).ok_or("no base")?;
+    let mut b = base.bytes.clone();
+    let f0 = base.frames[0].0;
+    let region = b.len() - f0;
+    for (pos, x) in &case.edits {
+        let p = f0 + (*pos as usize) % region;
+        let old = b[p];
+        if *x == 0 { b[p] = 0xFF } else { b[p] ^= *x }
+        let fi = base.frames.iter().position(|f| p >= f.0 && p < f.1);
+        println!("edit at byte {p} (frame {fi:?}, frame ranges {:?}): {old:#04x} -> {:#04x}", base.frames, b[p]);
+    }
+    let tr = refdec::decode(&b, Some(sc.cfg.block_size));
+    println!("refdec: fatal={:?} violations={:?} samples equal to original: {}", tr.fatal, tr.violations.iter().take(5).collect::<Vec<_>>(), tr.samples == base.samples);
+    println!("claxon: {:?}", crate::enc::claxon_decode(&b).map(|(s, _)| s == base.samples));
+    for (i, f) in base.frames.iter().enumerate() {
+        println!("frame {i}: crc16 stored {:02x}{:02x} computed {:04x}", b[f.1 - 2], b[f.1 - 1], refdec::crc16(&b[f.0..f.1 - 2]));
+    }
+    Ok(())
 }
 
 pub fn small_stream(i: u64) -> StreamCase {
